@@ -6,6 +6,7 @@ package memberlist
 import (
 	"fmt"
 	"math"
+	"os"
 	"sort"
 	"time"
 )
@@ -155,6 +156,25 @@ func execC05(c *Ctx) {
 			n.ep.mu.Unlock()
 		}
 	}
+	if os.Getenv("VERIF_DEBUG") != "" {
+		cx.cl.net.tapFn = func(r *tapRec) {
+			var from *SimNode
+			for _, n := range cx.cl.nodes {
+				if n.name == r.From {
+					from = n
+				}
+			}
+			if from == nil || r.Stream {
+				return
+			}
+			ms, err := decodePacket(from.conf, r.Buf)
+			var ts []string
+			for _, m := range ms {
+				ts = append(ts, fmt.Sprint(m.Type))
+			}
+			fmt.Fprintf(os.Stderr, "DEBUG %v %s -> %s types=%v err=%v accepted=%v\n", r.T, r.From, r.To, ts, err, r.Accepted)
+		}
+	}
 	live := cx.liveSet()
 	liveNames := map[string]*SimNode{}
 	for _, n := range live {
@@ -266,10 +286,30 @@ func execC05(c *Ctx) {
 	}
 	if convAt >= 0 {
 		c.Stat("max_converge_ms", int64((convAt-tf)/time.Millisecond))
-		// stability: stay converged for a while (nothing sticks, nothing flaps)
-		c.Sim.RunUntil(c.Sim.Now()+3*ms(p.Cfg.ProbeIntervalMs)+ms(p.Cfg.PushPullMs), func() bool { return c.Failed() })
-		if ok, why := converged(); !ok && !c07 && !c.Failed() && pre {
-			c.Violate("converged-then-diverged", "", "", "views diverged again on a perfect network: %s", why)
+		// "None sticks": a probe that began during the faulty phase may still fail up to one
+		// awareness-scaled probe interval after T_f and raise a (refutable) suspicion, so the
+		// stability verdict is taken once no such probe can be in flight any more; a transient
+		// re-divergence is only a violation if the views have not re-converged by T_f + W.
+		settle := tf + tProbe(p.Cfg)
+		if c.Sim.Now() > settle {
+			settle = c.Sim.Now()
+		}
+		c.Sim.RunUntil(settle+3*ms(p.Cfg.ProbeIntervalMs)+ms(p.Cfg.PushPullMs), func() bool { return c.Failed() })
+		if ok, _ := converged(); !ok && !c07 && !c.Failed() && pre {
+			c.Reach("transient_redivergence")
+			c.Sim.RunUntil(tf+w, func() bool {
+				if c.Failed() {
+					return true
+				}
+				if cx.stepCount%16 != 0 {
+					return false
+				}
+				ok, _ := converged()
+				return ok
+			})
+			if ok, why := converged(); !ok && !c.Failed() {
+				c.Violate("not-converged", sig, "", "views converged %v after faults stopped, diverged again and had not re-converged by T_f+W (W=%v): %s", convAt-tf, w, why)
+			}
 		}
 	}
 	if p.param("renamed", 0) == 1 {
